@@ -328,7 +328,9 @@ def c01(tier, rng, for_c08=False):
         for chain in itertools.product(['(1)', '[1]', '.p', '()'], repeat=n):
             cases.append(run_case('parse', 'a' + ''.join(chain) + ';', label='suffix-chain'))
             cases.append(run_case('parse', 'a' + ''.join(chain) + ' = 1;', label='suffix-chain-assign'))
-    for src in ['a = b = c;', 'a = b = c = 1 + 2;', 'a[1] = b.p = c;', 'a = b || c = d;', '(a) = 1;', 'a + b = c;', '1 = 2;', 'a = (b = c);', '-a = 1;', 'a() = 1;']:
+    for src in ['a = b = c;', 'a = b = c = 1 + 2;', 'a[1] = b.p = c;', 'a = b || c = d;', '(a) = 1;', 'a + b = c;', '1 = 2;', 'a = (b = c);', '-a = 1;', 'a() = 1;',
+                '(a[0]) = 1;', '((o.k)) = 7;', '(a)[0] = 1;', '(o).k = 1;', '(a = 1) = 2;', '[a] = 1;', '{k: 1} = 2;', 'a.k() = 1;', 'a[0]() = 1;', '"s" = 1;',
+                'nil = 1;', '(nil) = 1;', '((a)) = 1;', 'a = (1);', '!(a) = 1;']:
         cases.append(run_case('parse', src, label='assign-assoc'))
     # statements: dangling else at every nesting
     depth = 2 if tier == 'quick' else 3
